@@ -595,6 +595,136 @@ fn sweep_purge(a: &Args) -> ! {
 }
 
 // ---------------------------------------------------------------------------
+// cross: two segment trees over DIFFERENT domains used alternately on one thread, same raw range
+// ---------------------------------------------------------------------------
+
+/// For every ordered pair of domains (six domains with six different bucket widths / origins), every raw range
+/// [a,b] inside [0,31] (valid in all of them) and every combination of (insert | query) on the first tree then
+/// (insert | query) on the second tree with that same raw range: the answers of both trees and the purge of the
+/// second one are checked against the bucket reference.  Anything an implementation remembers between two calls
+/// without tying it to the instance (a `static` / `thread_local!` memo of the last mask, a shared scratch
+/// buffer) is invisible as long as every tree of a run has the same layout; here the layouts differ.
+fn sweep_cross(a: &Args) -> ! {
+    let t0 = Instant::now();
+    let prop = a.prop();
+    let sys = "SegExpTree<i32,u8,SV> x SegExpTree<i32,u8,SV> (two domains)";
+    register(a, sys);
+    let domains: Vec<(i32, i32)> = vec![(0, 31), (0, 63), (0, 127), (0, 1023), (-64, 63), (0, 4095)];
+    let ranges = all_ranges();
+    let mut cases: Vec<(usize, usize)> = vec![];
+    for i in 0..domains.len() {
+        for j in 0..domains.len() {
+            if i != j {
+                cases.push((i, j));
+            }
+        }
+    }
+    let (cs, rs, ds) = (&cases, &ranges, &domains);
+    let bucket = |d: (i32, i32), x: i32| -> u32 { ref_bucket(d.0 as i64, ref_scale((d.1 as i64 - d.0 as i64 + 1) as u128), x as i64) };
+    let acc = parallel(cases.len(), a.num("threads", 16) as usize, prop, sys, |ci, acc| {
+        let (i, j) = cs[ci];
+        let (di, dj) = (ds[i], ds[j]);
+        for &(ra, rb) in rs.iter() {
+            let r = SegRange { min: ra as i32, max: rb as i32 };
+            for combo in 0..4u32 {
+                rt::hist_reset();
+                rt::hist_push(code(7, ci as u64, ra as u64, rb as u64, combo as u64));
+                let case = vec![
+                    format!("Ti = SegExpTree::new([{},{}]); Tj = SegExpTree::new([{},{}])", di.0, di.1, dj.0, dj.1),
+                    format!("Ti.insert([{ra},{rb}], A exp 5); Tj.insert([{ra},{rb}], B exp 5); Tj.insert(whole domain, C exp 0)"),
+                    format!("{} on Ti with [{ra},{rb}] at time 1, then {} on Tj with [{ra},{rb}] at time 1", if combo & 1 == 0 { "query" } else { "insert D" }, if combo & 2 == 0 { "query" } else { "insert E" }),
+                    "query [ra,rb] on Tj, whole-domain query on Tj, query [ra,rb] on Ti, all at time 1".to_string(),
+                ];
+                let res = guard(|| -> Result<(), (String, String)> {
+                    let mut ti = Seg::new(SegRange { min: di.0, max: di.1 }).ok_or(("refused".to_string(), "domain refused".to_string()))?;
+                    let mut tj = Seg::new(SegRange { min: dj.0, max: dj.1 }).ok_or(("refused".to_string(), "domain refused".to_string()))?;
+                    ti.insert_by_range(r, SV { id: 1, exp: 5 });
+                    tj.insert_by_range(r, SV { id: 2, exp: 5 });
+                    tj.insert_by_range(SegRange { min: dj.0, max: dj.1 }, SV { id: 3, exp: 0 });
+                    let ids = |t: &mut Seg, q: SegRange<i32>| -> Vec<u8> {
+                        let mut v: Vec<u8> = t.iter_by_range(q, 1).map(|x| x.id).collect();
+                        v.sort();
+                        v
+                    };
+                    let mut want_i = vec![1u8];
+                    let mut want_j = vec![2u8];
+                    if combo & 1 == 0 {
+                        let g = ids(&mut ti, r);
+                        if g != want_i {
+                            return Err(("query".into(), format!("first tree: query [{ra},{rb}] at time 1 yielded ids {g:?}, reference says {want_i:?}")));
+                        }
+                    } else {
+                        ti.insert_by_range(r, SV { id: 4, exp: 7 });
+                        want_i.push(4);
+                    }
+                    if combo & 2 == 0 {
+                        let g = ids(&mut tj, r);
+                        if g != want_j {
+                            return Err(("query".into(), format!("second tree (domain [{},{}]) right after the same raw range was used on a tree over [{},{}]: query [{ra},{rb}] at time 1 yielded ids {g:?}, reference says {want_j:?}", dj.0, dj.1, di.0, di.1)));
+                        }
+                    } else {
+                        tj.insert_by_range(r, SV { id: 5, exp: 7 });
+                        want_j.push(5);
+                        // the copies of the new value must tile the range's buckets in the second tree's own layout
+                        let have: Vec<u32> = tj.verif_chunks().iter().enumerate().filter(|(_, c)| c.iter().any(|(v, _)| v.id == 5)).map(|(k, _)| k as u32).collect();
+                        if !tiles_exactly(&have, bucket(dj, ra as i32), bucket(dj, rb as i32)) {
+                            return Err(("placement".into(), format!("second tree (domain [{},{}]): insert of [{ra},{rb}] right after the same raw range was used on a tree over [{},{}] stored copies at places {have:?}, which do not tile buckets {}..{}", dj.0, dj.1, di.0, di.1, bucket(dj, ra as i32), bucket(dj, rb as i32))));
+                        }
+                    }
+                    let g = ids(&mut tj, r);
+                    if g != want_j {
+                        return Err(("query".into(), format!("second tree: query [{ra},{rb}] at time 1 yielded ids {g:?}, reference says {want_j:?}")));
+                    }
+                    let g = ids(&mut tj, SegRange { min: dj.0, max: dj.1 });
+                    if g != want_j {
+                        return Err(("query".into(), format!("second tree: whole-domain query at time 1 yielded ids {g:?}, reference says {want_j:?}")));
+                    }
+                    if tj.verif_chunks().iter().any(|c| c.iter().any(|(v, _)| v.exp < 1)) {
+                        return Err(("purge".into(), "second tree: after a fully consumed whole-domain query at time 1 a copy with expiration 0 is still stored".to_string()));
+                    }
+                    let g = ids(&mut ti, r);
+                    if g != want_i {
+                        return Err(("query".into(), format!("first tree: query [{ra},{rb}] at time 1 yielded ids {g:?}, reference says {want_i:?}")));
+                    }
+                    // a point query at the far end of the second domain sees none of them unless the buckets coincide
+                    let far = SegRange { min: dj.1, max: dj.1 };
+                    let g = ids(&mut tj, far);
+                    let meets = bucket(dj, rb as i32) >= bucket(dj, dj.1);
+                    let want: Vec<u8> = if meets { want_j.clone() } else { vec![] };
+                    if g != want {
+                        return Err(("query".into(), format!("second tree: point query at {} yielded ids {g:?}, reference says {want:?}", dj.1)));
+                    }
+                    Ok(())
+                });
+                acc.transitions += 9;
+                acc.evals += 5;
+                match res {
+                    Ok(Ok(())) => {}
+                    Ok(Err((tag, msg))) => {
+                        if acc.viol_b("cross", &tag, msg, case.clone()) {
+                            return;
+                        }
+                    }
+                    Err(_) => {
+                        if acc.viol_b("cross", "panic", format!("the subject panicked: {}", rt::last_panic()), case.clone()) {
+                            return;
+                        }
+                    }
+                }
+                if acc.samples.is_empty() && ra == 3 && rb == 17 {
+                    acc.samples.push(case);
+                }
+            }
+        }
+        acc.nontrivial += 1;
+        acc.states.insert(fingerprint(format!("cross:{i}:{j}").as_bytes()));
+    });
+    let mut acc = acc;
+    acc.count("domain_pairs", cases.len() as u64);
+    finish(acc.report(t0, true, ""), a)
+}
+
+// ---------------------------------------------------------------------------
 // layout: construction and coordinate -> bucket mapping for families of domains
 // ---------------------------------------------------------------------------
 
@@ -2585,6 +2715,7 @@ pub fn dispatch(a: &Args) -> ! {
         "pairs" => sweep_pairs(a),
         "dpairs" => sweep_dpairs(a),
         "purge" => sweep_purge(a),
+        "cross" => sweep_cross(a),
         "layout" => sweep_layout(a),
         "export-sizes" => sweep_export_sizes(a),
         "niche" => sweep_niche(a),
